@@ -1042,7 +1042,8 @@ fn replay_inbound_query(sc: &Value) -> Value {
         let refused = answers.first().map(|a| {
             !a.success && matches!(bincode::deserialize::<crate::synchronisation::Error>(&a.serialized), Ok(crate::synchronisation::Error::Authorisation(_)))
         }).unwrap_or(false);
-        json!({"status": "done", "ok": res.is_ok(), "answered": !answers.is_empty(), "authorisation_refused": refused})
+        let data_served = answers.iter().any(|a| a.success);
+        json!({"status": "done", "ok": res.is_ok(), "answered": !answers.is_empty(), "authorisation_refused": refused, "data_served": data_served, "answers": answers.len()})
     })
 }
 
@@ -1137,8 +1138,83 @@ fn replay_room_three_paths(sc: &Value) -> Value {
         };
         let ent = sc["query"]["entity"].as_str().unwrap_or("E").to_string();
         let live_decision = probe(app.clone(), room_id.clone(), ent.clone()).await;
+        // membership of every key of the history, right now, as the running instance answers it
+        let mut key_names: Vec<String> = vec![];
+        for a in room["admins"].as_array().unwrap().iter().chain(g["users"].as_array().unwrap()).chain(g["user_admins"].as_array().unwrap()) {
+            let n = a[0].as_str().unwrap().to_string();
+            if !key_names.contains(&n) {
+                key_names.push(n);
+            }
+        }
+        let members = |app: GraphDatabaseService, names: Vec<String>, kb: Vec<Vec<u8>>| async move {
+            let mut out = vec![];
+            for (n, k) in names.iter().zip(kb) {
+                let mut rx = app.get_rooms_for_peer(k).await;
+                let mut member = false;
+                while let Some(r) = rx.recv().await {
+                    if let Ok(list) = r {
+                        if list.contains(&room_uid) {
+                            member = true;
+                        }
+                    }
+                }
+                out.push((n.clone(), member));
+            }
+            out
+        };
+        let key_bytes: Vec<Vec<u8>> = key_names.iter().map(|n| if n.starts_with("K1") { own_key.clone() } else { keys.vk(n) }).collect();
+        let live_members = members(app.clone(), key_names.clone(), key_bytes.clone()).await;
         // export
         let exported = app.get_room_node(room_uid).await.unwrap();
+        // what the importing peer decides (RoomNode::parse of the exported rows) against the live construction of the same history
+        let mut import_differs = false;
+        if let Some(node) = &exported {
+            if let Ok(imported_room) = node.parse() {
+                let mut live_keys = Keys::new();
+                // the live construction: the add_* sequence with the keys of this run
+                let mut live_room = Room { id: room_uid, ..Default::default() };
+                let mut ok_live = true;
+                let now = crate::date_utils::now();
+                let mut n = 0i64;
+                let mut kv = |name: &str, own: &Vec<u8>, ks: &mut Keys| if name.starts_with("K1") { own.clone() } else { ks.vk(name) };
+                for a in room["admins"].as_array().unwrap() {
+                    n += 1;
+                    ok_live &= live_room.add_admin_user(User { verifying_key: kv(a[0].as_str().unwrap(), &own_key, &mut live_keys), date: n, enabled: a[2].as_bool().unwrap() }).is_ok();
+                }
+                let mut auth = Authorisation { id: uid("g"), ..Default::default() };
+                for a in g["users"].as_array().unwrap() {
+                    n += 1;
+                    ok_live &= auth.add_user(User { verifying_key: kv(a[0].as_str().unwrap(), &own_key, &mut live_keys), date: n, enabled: a[2].as_bool().unwrap() }).is_ok();
+                }
+                for a in g["user_admins"].as_array().unwrap() {
+                    n += 1;
+                    ok_live &= auth.add_user_admin(User { verifying_key: kv(a[0].as_str().unwrap(), &own_key, &mut live_keys), date: n, enabled: a[2].as_bool().unwrap() }).is_ok();
+                }
+                for r in g["rights"].as_array().unwrap() {
+                    n += 1;
+                    ok_live &= auth.add_right(EntityRight::new(n, r[0].as_str().unwrap().to_string(), r[2].as_bool().unwrap(), r[3].as_bool().unwrap())).is_ok();
+                }
+                ok_live &= live_room.add_auth(auth).is_ok();
+                if ok_live {
+                    // keys of the imported room are those of the database run; compare on every key of the scenario, both rights, entity E and *
+                    let mut names: Vec<String> = vec![];
+                    for a in room["admins"].as_array().unwrap().iter().chain(g["users"].as_array().unwrap()).chain(g["user_admins"].as_array().unwrap()) {
+                        names.push(a[0].as_str().unwrap().to_string());
+                    }
+                    for name in names {
+                        let k_live = kv(&name, &own_key, &mut live_keys);
+                        let k_imp = if name.starts_with("K1") { own_key.clone() } else { keys.vk(&name) };
+                        for ent in ["E", "F"] {
+                            for right in [RightType::MutateSelf, RightType::MutateAll] {
+                                if live_room.can(&k_live, ent, i64::MAX, &right) != imported_room.can(&k_imp, ent, now + 86_400_000, &right) {
+                                    import_differs = true;
+                                }
+                            }
+                        }
+                    }
+                }
+            }
+        }
         drop(app);
         std::thread::sleep(std::time::Duration::from_millis(300));
         // reload: restart on the same files
@@ -1146,8 +1222,10 @@ fn replay_room_three_paths(sc: &Value) -> Value {
         let reload_ok = reloaded.is_ok();
         let reload_err = reloaded.as_ref().err().map(|e| format!("{}", e));
         let mut reload_decision = None;
+        let mut reload_members = live_members.clone();
         if let Ok((app2, _, _)) = reloaded {
             reload_decision = probe(app2.clone(), room_id.clone(), ent.clone()).await;
+            reload_members = members(app2.clone(), key_names.clone(), key_bytes.clone()).await;
         }
         // import on a fresh instance
         let (app_b, _, _) = start(path_b.clone(), crate::security::random32(), crate::security::random32()).await.unwrap();
@@ -1155,12 +1233,16 @@ fn replay_room_three_paths(sc: &Value) -> Value {
             Some(node) => app_b.add_room_node(node).await.map_err(|e| format!("{}", e)),
             None => Err("room not exported".to_string()),
         };
-        let decisions_differ = match (live_decision, reload_decision) {
-            (Some(a), Some(b)) => a != b,
-            _ => false,
+        let decisions_differ = match sc["path"].as_str().unwrap_or("reload") {
+            "import" => import_differs,
+            _ => (match (live_decision, reload_decision) {
+                (Some(a), Some(b)) => a != b,
+                _ => false,
+            }) || live_members != reload_members,
         };
         json!({"status": "done", "reload_ok": reload_ok, "reload_error": reload_err, "import_ok": import.is_ok(), "import_error": import.err(),
-               "live_decision": live_decision, "reload_decision": reload_decision, "decisions_differ": decisions_differ})
+               "live_decision": live_decision, "reload_decision": reload_decision, "import_differs": import_differs, "decisions_differ": decisions_differ,
+               "live_members": format!("{:?}", live_members), "reload_members": format!("{:?}", reload_members)})
     })
 }
 
